@@ -20,14 +20,28 @@
 (* c = the goroutine that creates the instance (it calls the factory and   *)
 (* then Bind); t = token carried by the ammo ("" = scenario: drawn later). *)
 (*                                                                         *)
+(* Samples (netsample): a *Sample comes out of ONE process-wide sync.Pool  *)
+(* (SAcquire), belongs to the gun that acquired it until the gun hands it  *)
+(* to the aggregator (SReport), and to the aggregator afterwards, which    *)
+(* formats it in its own goroutine and puts it back into the pool          *)
+(* (AggWrite).  After the hand-over the gun must neither write to it nor   *)
+(* report it again.                                                        *)
+(*   SAcquire(g,s) SMark(g) SReport(g) SFailAfter(g) AggWrite              *)
+(*                                                                         *)
 (* Negative controls (all FALSE for the real design):                      *)
 (*   ShareGun    the factory hands out one gun object to every instance    *)
 (*   InPlace     rendered values are stored in the shared definition       *)
 (*   NoRandLock  the shared random source is entered without its lock      *)
+(*   ReportEarly the gun reports the sample BEFORE the part of the step    *)
+(*               that can still fail and, on failure, marks the sample and *)
+(*               reports it again (write after hand-over, double release)  *)
 (***************************************************************************)
 EXTENDS Integers, Sequences, FiniteSets, TLC
 
-CONSTANTS Insts, Guns, Toks, MaxShots, KeepLog, ShareGun, InPlace, NoRandLock
+CONSTANTS Insts, Guns, Toks, MaxShots, KeepLog, ShareGun, InPlace, NoRandLock,
+          Samples,      \* sample objects of the shared pool ({} = samples not modelled)
+          WithRand,     \* model the shared random source
+          ReportEarly
 
 VARIABLES pend,     \* set of <<creator, gun>>: product of the factory not yet bound
           made,     \* guns the factory produced
@@ -41,9 +55,18 @@ VARIABLES pend,     \* set of <<creator, gun>>: product of the factory not yet b
           view,     \* gun -> "none" | what its templater parsed from defs
           inCrit,   \* guns inside the shared random source
           sent,     \* log of calls [gun, cur, p, m] (KeepLog)
-          shots
+          shots,
+          holders,  \* sample -> who holds a reference it may use: guns and/or "agg"
+          inPool,   \* sample -> how many times it sits in the pool's free list
+          sval,     \* sample -> content: [gun that wrote it, mark]
+          aggq,     \* the aggregator's queue: <<[s, v]>> -- sample and its content AT HAND-OVER
+          lines,    \* log of written lines [handed, written] (KeepLog)
+          hs,       \* gun -> sample of its current step ("nil" = none)
+          sph,      \* gun -> step phase w.r.t. its sample: none | acq | sent
+          stale     \* gun -> sample it already reported but still references (ReportEarly only)
 
-vars == <<pend, made, owners, busy, nShoot, shooter, cur, used, defs, view, inCrit, sent, shots>>
+svars == <<holders, inPool, sval, aggq, lines, hs, sph, stale>>
+vars == <<pend, made, owners, busy, nShoot, shooter, cur, used, defs, view, inCrit, sent, shots, svars>>
 
 Init ==
     /\ pend = {} /\ made = {}
@@ -58,6 +81,13 @@ Init ==
     /\ inCrit = {}
     /\ sent = {}
     /\ shots = 0
+    /\ holders = [s \in Samples |-> {}]
+    /\ inPool = [s \in Samples |-> 1]
+    /\ sval = [s \in Samples |-> [gun |-> 0, mark |-> "-"]]
+    /\ aggq = <<>> /\ lines = {}
+    /\ hs = [g \in Guns |-> "nil"]
+    /\ sph = [g \in Guns |-> "none"]
+    /\ stale = [g \in Guns |-> "nil"]
 
 \* the registered factory builds a NEW gun for every call (ShareGun: a singleton)
 NewGun(c, g) ==
@@ -65,14 +95,14 @@ NewGun(c, g) ==
     /\ \A p \in pend : p[1] # c
     /\ made' = made \cup {g}
     /\ pend' = pend \cup {<<c, g>>}
-    /\ UNCHANGED <<owners, busy, nShoot, shooter, cur, used, defs, view, inCrit, sent, shots>>
+    /\ UNCHANGED <<owners, busy, nShoot, shooter, cur, used, defs, view, inCrit, sent, shots, svars>>
 
 Bind(c, i, g) ==
     /\ <<c, g>> \in pend
     /\ \A h \in Guns : i \notin owners[h]             \* newInstance(id) is called once per id
     /\ owners' = [owners EXCEPT ![g] = @ \cup {i}]
     /\ pend' = pend \ {<<c, g>>}
-    /\ UNCHANGED <<made, busy, nShoot, shooter, cur, used, defs, view, inCrit, sent, shots>>
+    /\ UNCHANGED <<made, busy, nShoot, shooter, cur, used, defs, view, inCrit, sent, shots, svars>>
 
 \* the instance goroutine (sequential) hands an acquired ammo to ITS gun
 ShootBegin(i, g, gid, t) ==
@@ -83,25 +113,27 @@ ShootBegin(i, g, gid, t) ==
     /\ cur' = [cur EXCEPT ![g] = t]
     /\ used' = IF t = "" THEN used ELSE used \cup {t}
     /\ shots' = shots + 1
-    /\ UNCHANGED <<pend, made, owners, defs, view, inCrit, sent>>
+    /\ UNCHANGED <<pend, made, owners, defs, view, inCrit, sent, svars>>
 
 \* scenario step: the preprocessor draws this call's variables (source[next] under the iterator lock)
 Draw(g, t) ==
     /\ nShoot[g] > 0 /\ cur[g] = "" /\ t \notin used
+    /\ Samples = {} \/ sph[g] = "acq"
     /\ cur' = [cur EXCEPT ![g] = t]
     /\ used' = used \cup {t}
-    /\ UNCHANGED <<pend, made, owners, busy, nShoot, shooter, defs, view, inCrit, sent, shots>>
+    /\ UNCHANGED <<pend, made, owners, busy, nShoot, shooter, defs, view, inCrit, sent, shots, svars>>
 
 \* rand / randString: the shared *rand.Rand
 RandEnter(g) ==
+    /\ WithRand
     /\ nShoot[g] > 0 /\ g \notin inCrit
     /\ NoRandLock \/ inCrit = {}
     /\ inCrit' = inCrit \cup {g}
-    /\ UNCHANGED <<pend, made, owners, busy, nShoot, shooter, cur, used, defs, view, sent, shots>>
+    /\ UNCHANGED <<pend, made, owners, busy, nShoot, shooter, cur, used, defs, view, sent, shots, svars>>
 RandExit(g) ==
     /\ g \in inCrit
     /\ inCrit' = inCrit \ {g}
-    /\ UNCHANGED <<pend, made, owners, busy, nShoot, shooter, cur, used, defs, view, sent, shots>>
+    /\ UNCHANGED <<pend, made, owners, busy, nShoot, shooter, cur, used, defs, view, sent, shots, svars>>
 
 \* the call leaves gun g with token p in the payload and m in the templated header / metadata
 Send(g, p, m, nd, nv, scenario) ==
@@ -109,14 +141,66 @@ Send(g, p, m, nd, nv, scenario) ==
     /\ sent' = IF KeepLog THEN sent \cup {[gun |-> g, cur |-> cur[g], p |-> p, m |-> m]} ELSE sent
     /\ defs' = nd /\ view' = nv
     /\ cur' = [cur EXCEPT ![g] = IF scenario THEN "" ELSE @]      \* the next step draws again
-    /\ UNCHANGED <<pend, made, owners, busy, nShoot, shooter, used, inCrit, shots>>
+    /\ sph' = IF Samples = {} THEN sph ELSE [sph EXCEPT ![g] = "sent"]
+    /\ UNCHANGED <<pend, made, owners, busy, nShoot, shooter, used, inCrit, shots, holders, inPool, sval, aggq, lines, hs, stale>>
 
 ShootEnd(i, g) ==
     /\ i \in owners[g] /\ busy[i] /\ nShoot[g] > 0 /\ g \notin inCrit
+    /\ sph[g] = "none" /\ stale[g] = "nil"
     /\ busy' = [busy EXCEPT ![i] = FALSE]
     /\ nShoot' = [nShoot EXCEPT ![g] = @ - 1]
     /\ cur' = [cur EXCEPT ![g] = "-"]
-    /\ UNCHANGED <<pend, made, owners, shooter, used, defs, view, inCrit, sent, shots>>
+    /\ UNCHANGED <<pend, made, owners, shooter, used, defs, view, inCrit, sent, shots, svars>>
+
+(****************************** samples ************************************)
+core == <<pend, made, owners, busy, nShoot, shooter, cur, used, defs, view, inCrit, sent, shots>>
+
+\* netsample.Acquire at the start of a step: any sample the pool has
+SAcquire(g, s) ==
+    /\ nShoot[g] > 0 /\ cur[g] = "" /\ sph[g] = "none" /\ stale[g] = "nil"
+    /\ inPool[s] > 0
+    /\ inPool' = [inPool EXCEPT ![s] = @ - 1]
+    /\ holders' = [holders EXCEPT ![s] = @ \cup {g}]
+    /\ sval' = [sval EXCEPT ![s] = [gun |-> g, mark |-> "ok"]]        \* *s = Sample{tags: tag, ...}
+    /\ hs' = [hs EXCEPT ![g] = s]
+    /\ sph' = [sph EXCEPT ![g] = "acq"]
+    /\ UNCHANGED <<core, aggq, lines, stale>>
+
+\* the step failed (postprocessor, transport): the gun marks ITS sample (reportErr: AddTag, SetErr)
+SMark(g) ==
+    /\ sph[g] = "sent" /\ hs[g] # "nil" /\ sval[hs[g]].mark = "ok"
+    /\ sval' = [sval EXCEPT ![hs[g]] = [gun |-> g, mark |-> "failed"]]
+    /\ UNCHANGED <<core, holders, inPool, aggq, lines, hs, sph, stale>>
+
+\* Aggregator.Report(sample): the sample now belongs to the aggregator
+SReport(g) ==
+    /\ sph[g] = "sent" /\ hs[g] # "nil"
+    /\ aggq' = Append(aggq, [s |-> hs[g], v |-> sval[hs[g]]])
+    /\ holders' = [holders EXCEPT ![hs[g]] = (@ \ {g}) \cup {"agg"}]
+    /\ stale' = [stale EXCEPT ![g] = IF ReportEarly THEN hs[g] ELSE "nil"]
+    /\ hs' = [hs EXCEPT ![g] = "nil"]
+    /\ sph' = [sph EXCEPT ![g] = "none"]
+    /\ UNCHANGED <<core, inPool, sval, lines>>
+
+\* ReportEarly only: the step fails AFTER the hand-over; the gun writes to the sample it no longer
+\* owns and reports it a second time -- or the rest of the step succeeds and the reference is dropped
+SFailAfter(g) ==
+    /\ ReportEarly /\ stale[g] # "nil"
+    /\ \/ /\ sval' = [sval EXCEPT ![stale[g]] = [gun |-> g, mark |-> "failed"]]
+          /\ aggq' = Append(aggq, [s |-> stale[g], v |-> sval'[stale[g]]])
+       \/ UNCHANGED <<sval, aggq>>
+    /\ stale' = [stale EXCEPT ![g] = "nil"]
+    /\ UNCHANGED <<core, holders, inPool, lines, hs, sph>>
+
+\* the aggregator goroutine formats the head of its queue (reading the object NOW) and releases it
+AggWrite ==
+    /\ aggq # <<>>
+    /\ LET e == Head(aggq) IN
+         /\ lines' = IF KeepLog THEN lines \cup {[handed |-> e.v, written |-> sval[e.s]]} ELSE lines
+         /\ holders' = [holders EXCEPT ![e.s] = @ \ {"agg"}]
+         /\ inPool' = [inPool EXCEPT ![e.s] = @ + 1]
+    /\ aggq' = Tail(aggq)
+    /\ UNCHANGED <<core, sval, hs, sph, stale>>
 
 (* design level: what the modelled templater sends *)
 Src(g) == IF view[g] = "none" THEN defs ELSE view[g]
@@ -128,6 +212,9 @@ Next ==
     \/ \E i \in Insts, g \in Guns : shots < MaxShots /\ ShootBegin(i, g, i, "")
     \/ \E g \in Guns, t \in Toks : Draw(g, t)
     \/ \E g \in Guns : RandEnter(g) \/ RandExit(g) \/ ModelSend(g)
+    \/ \E g \in Guns, s \in Samples : SAcquire(g, s)
+    \/ \E g \in Guns : SMark(g) \/ SReport(g) \/ SFailAfter(g)
+    \/ AggWrite
 
 Spec == Init /\ [][Next]_vars
 
@@ -148,6 +235,12 @@ ValueIsolation == \A r \in sent : r.p = r.cur /\ r.m = r.cur
 FreshValues == \A r, q \in sent : r # q => (r.m # q.m \/ (r.gun = q.gun /\ r.cur = q.cur))
 \* shared definitions are never altered
 SharedUnaltered == defs = "T"
+\* a sample has ONE owner: the gun from Acquire until Report, the aggregator afterwards
+SampleOneHolder == \A s \in Samples : Cardinality(holders[s]) <= 1
+\* it is released into the pool once, and nobody holds a released sample
+NoDoubleRelease == \A s \in Samples : inPool[s] <= 1 /\ (inPool[s] = 1 => holders[s] = {})
+\* no write after the hand-over: every line is the content the gun handed over
+LinesAsHanded == \A x \in lines : x.handed = x.written
 \* the shared random source is used by one goroutine at a time
 RandMutex == Cardinality(inCrit) <= 1
 =============================================================================
